@@ -572,7 +572,7 @@ class C17(ApiCheck):
     quick = dict(cases=600, budget=90, timeout=120)
     thorough = dict(cases=6000, budget=1200, timeout=600)
     rule = ("npu_create_driver_payload(words, accelerator) for word lists of boundary and random lengths (0..5, 2^16-1, 2^16, 2^16+1, random up to 2^18; "
-            "2^24-1 and 2^24 once per run, more often in the thorough tier) and all byte patterns, as HISTORIES of several accelerators in one process (the payload of one must not depend "
+            "2^24-1 and 2^24 once per run, more often in the thorough tier) and all byte patterns; npu_generate_register_command_stream on DMA lists whose stream ends just above / just below the 16 MiB hardware limit (once each per run); as HISTORIES of several accelerators in one process (the payload of one must not depend "
             "on an earlier one), plus the command-stream tensors of compiled networks; the driver peer parses every payload; distinct = digest(case); "
             "non-trivial = >= 2 payloads in one process")
     components = {"real": ["npu_create_driver_payload / driver_actions", "whole compiler for the network part"], "model": ["Ethos-U driver payload parser"], "stub": []}
@@ -589,6 +589,10 @@ class C17(ApiCheck):
             for n in ((1 << 24), (1 << 24) - 1):
                 steps.append(dict(acc=r.choice(apigen.ACCS), n=n, pattern="zeros", wseed=0))
             return dict(kind="api", steps=steps)
+        if i in (1, 2):
+            # the 16 MiB hardware limit sits in the register command stream generator: a list of DMA operations whose stream
+            # ends just above (case 1) / just below (case 2) 2^24 bytes; once per run in both tiers (about 20 s each)
+            return dict(kind="gen_limit", acc=r.choice(apigen.ACCS), above=i == 1, margin=r.choice([8, 64, 4096]), aseed=r.randrange(1 << 30))
         for _ in range(r.randint(2, 6)):
             n = r.choice([0, 1, 2, 3, 4, 5, 7, 8, 65535, 65536, 65537, r.randint(6, 300), r.randint(300, 1 << 18)])
             if tier == "thorough" and i % 200 == 0 and not steps:
@@ -597,6 +601,8 @@ class C17(ApiCheck):
         return dict(kind="api", steps=steps)
 
     def case_layers(self, desc):
+        if desc.get("kind") == "gen_limit":
+            return [desc["acc"], "above" if desc["above"] else "below"]
         return [s_["acc"] for s_ in desc["steps"]] if desc.get("kind") == "api" else [L["op"] for L in desc["recipe"]["layers"]]
 
     @staticmethod
@@ -636,6 +642,8 @@ class C17(ApiCheck):
         from ethosu.vela import api
         from ethosu.vela.errors import VelaError
 
+        if desc.get("kind") == "gen_limit":
+            return self.run_gen_limit(desc, out, api, VelaError)
         out["nontrivial"] = len(desc["steps"]) >= 2
         hist = []
         for si, s_ in enumerate(desc["steps"]):
@@ -670,6 +678,51 @@ class C17(ApiCheck):
         out["counters"]["probe"] = dict(len_ge_2_16=int(any(s_["n"] >= 65536 for s_ in desc["steps"])), len_ge_2_24=int(any(s_["n"] >= 1 << 24 for s_ in desc["steps"])),
                                         several_accelerators=int(len(set(s_["acc"] for s_ in desc["steps"])) > 1))
         out["sample"] = dict(kind="api", steps=[dict(acc=s_["acc"], n=s_["n"], pattern=s_["pattern"]) for s_ in desc["steps"]])
+        return out
+
+    @staticmethod
+    def dma_ops(api, n, aseed):
+        ops = []
+        for i in range(n):
+            ops.append(api.NpuDmaOperation(api.NpuAddressRange(0, ((i * 13 + aseed) % 4096) * 16, 16), api.NpuAddressRange(1, ((i * 7 + aseed) % 4096) * 16, 16)))
+        return ops
+
+    def run_gen_limit(self, desc, out, api, VelaError):
+        """the generator's own limit: a stream of >= 2^24 bytes is an error, one just below is produced, framed and parsed"""
+        acc_e = getattr(api.NpuAccelerator, desc["acc"])
+        n0 = 2000
+        probe = api.npu_generate_register_command_stream(self.dma_ops(api, n0, desc["aseed"]), acc_e)
+        probe2 = api.npu_generate_register_command_stream(self.dma_ops(api, 2 * n0, desc["aseed"]), acc_e)
+        per_op = (len(probe2) - len(probe)) / n0
+        fixed = len(probe) - per_op * n0
+        limit_words = (1 << 24) // 4
+        target = limit_words + desc["margin"] if desc["above"] else limit_words - desc["margin"]
+        n = int((target - fixed) / per_op) + (1 if desc["above"] else 0)
+        out["evaluations"] = 1
+        out["nontrivial"] = True
+        out["counters"]["probe"] = dict(generator_limit_above=int(desc["above"]), generator_limit_below=int(not desc["above"]))
+        try:
+            stream = api.npu_generate_register_command_stream(self.dma_ops(api, n, desc["aseed"]), acc_e)
+        except VelaError as e:
+            if not desc["above"]:
+                out["viol"].append(dict(prop="C17", oracle="valid_stream_rejected", ops=n, msg=str(e)[-200:], sig=dict(oracle="valid_stream_rejected", n_class="generator_below_16MiB")))
+            out["sample"] = dict(kind="gen_limit", ops=n, above=desc["above"], outcome="rejected")
+            return out
+        size = 4 * len(stream)
+        out["sample"] = dict(kind="gen_limit", ops=n, above=desc["above"], outcome="generated", bytes=size)
+        if size >= 1 << 24:
+            out["viol"].append(dict(prop="C17", oracle="oversize_stream_accepted", bytes=size, ops=n, sig=dict(oracle="oversize_stream_accepted", where="generator")))
+            return out
+        if desc["above"]:
+            raise RuntimeError("harness: the DMA list meant to exceed the limit produced %d bytes" % size)
+        payload = api.npu_create_driver_payload(stream, acc_e)
+        try:
+            p = driver.parse_payload(payload, HW.API_ACCEL[desc["acc"]])
+            if not np.array_equal(np.array(p["words"], dtype=np.uint32), np.array(stream, dtype=np.uint32)):
+                out["viol"].append(dict(prop="C17", oracle="words_modified", n=len(stream), sig=dict(oracle="words_modified", n_class="generator_below_16MiB")))
+        except driver.DriverReject as e:
+            out["viol"].append(dict(prop="C17", oracle="driver_rejects:" + e.oracle, n=len(stream), acc=desc["acc"], msg=str(e)[:200],
+                                    sig=dict(oracle="driver_rejects:" + e.oracle, n_class="generator_below_16MiB")))
         return out
 
     def minimise(self, desc, sig):
